@@ -719,4 +719,28 @@ def rule_home_abs(ctx):
            "User.__init__ accepts a relative home_path: the session's working directory starts relative, the resolver's `parts[1:]` drops its first component", construct="home:relative accepted")
 
 
-RULES = [rule_res, rule_sink, rule_cwd, rule_only, rule_memo, rule_lookup, rule_home, rule_listed_dir, rule_home_abs, rule_fallback_pair]
+REINTERPRET = {"normpath": "collapses '..' textually", "realpath": "follows links", "abspath": "normalises", "expanduser": "'~' becomes the account's home", "expandvars": "expands $VAR",
+               "resolve": "follows links and '..'", "PureWindowsPath": "reads '\\' as a separator", "PurePath": "platform flavour", "absolute": "prefixes the process cwd"}
+
+
+def rule_verbatim(ctx):
+    p = ctx.p
+    ctx.rule("C02.VERBATIM", "the backends act on the path object the server confined, as it is: no backend method re-interprets it (normpath / realpath / expanduser / resolve / "
+                             "PureWindowsPath ...) - a name the resolver treated as one harmless component ('x\\..\\..\\y', '~') must not become a traversal below it")
+    n = 0
+    for b in p.backends():
+        for name, m in p.methods(b).items():
+            for fx in [m] + p.nested_functions(m):
+                n += 1
+                for c in walk_no_nested(fx):
+                    if isinstance(c, ast.Call):
+                        nm = (dotted(c.func) or src(c.func)).split(".")[-1]
+                        if nm in REINTERPRET:
+                            ctx.fail("C02.VERBATIM", c, f"{b}.{name}: `{src(c)[:50]}` re-interprets the path after the server confined it ({REINTERPRET[nm]}): the location acted on is "
+                                     "no longer the one whose confinement and permission were checked", construct=f"verbatim:{b}.{name}:{nm}")
+    ctx.ob("C02.VERBATIM", p.trees["pathio.py"], f"{n} backend functions scanned for path re-interpretation", True)
+    if n < 30:
+        ctx.floor_errors.append(f"rule=C02.VERBATIM: {n} backend functions (floor 30)")
+
+
+RULES = [rule_verbatim, rule_res, rule_sink, rule_cwd, rule_only, rule_memo, rule_lookup, rule_home, rule_listed_dir, rule_home_abs, rule_fallback_pair]
